@@ -22,6 +22,7 @@ class Contract:
     loop_decreases = {}
     decreases = None
     canaries = {}            # clause name -> fn(E, a, res, old) -> bool that MUST NOT verify
+    inline_at_calls = False  # True: callers execute the body (small helper), the contract is still verified on its own
     assumed = False          # True: contract of a dependency / external (never verified here)
     ext_may_raise = False
     max_paths = 4000
